@@ -12,7 +12,7 @@ import (
 func TestC16(t *testing.T) {
 	r := newRun(t, "C16", "fault_enumeration")
 	defer r.Finish(t)
-	r.Rule = "v1 priority and v1 Simple: per base script (N operations: writes, drains without release, release groups, sleeps, closes) the signal {Stop, context cancel, Stop after a pending GracefulStop} is injected after EVERY prefix k in 0..N (plus prefixes in which nobody drains at all: output full / producers blocked); the state at injection is recorded (held/H, output fill, blocked writers); nobody reads the output and nobody releases while the harness waits; oracle: Stop() returns / Err() closes within 50us virtual (a busy loop is classified by the real-time watchdog from stack samples), Err() is closed once Stop returned, over a further 5us virtual the harness-owned output does not grow although inputs still hold items, Simple: no Handle call is entered or still running afterwards, everything delivered is an in-order duplicate-free subsequence of what was written. v1 join (copy / no-copy): Stop / cancel after a random delivered slice, before or after its release, with the consumer slow or the release never sent; Stop() returns and the output closes within 1ms virtual, at most the one buffered slice is read afterwards. Real-clock block: the same join signals racing with live traffic. non-trivial = injection landed in a non-idle state (items in flight, output full, producers blocked) or, for join, after at least one delivered slice; distinct by (scenario, position, signal)"
+	r.Rule = "v1 priority and v1 Simple: per base script (N operations: writes, drains without release, release groups, sleeps, closes) the signal {Stop, context cancel, Stop after a pending GracefulStop} is injected after EVERY prefix k in 0..N (plus prefixes in which nobody drains at all: output full / producers blocked); the state at injection is recorded (held/H, output fill, blocked writers); nobody reads the output and nobody releases while the harness waits; oracle: Stop() returns / Err() closes within 50us virtual (a busy loop is classified by the real-time watchdog from stack samples), Err() is closed once Stop returned, over a further 5us virtual the harness-owned output does not grow although inputs still hold items, Simple: no Handle call is entered or still running afterwards, everything delivered is an in-order duplicate-free subsequence of what was written; a quarter of the injections issue two concurrent Stop() calls, a quarter Stop together with cancel, a quarter of the v1 runs leave Opts.Ctx nil, and after completion a further Stop / GracefulStop / cancel / Stop sequence must return at once. v1 join (copy / no-copy): Stop / cancel after a random delivered slice, before or after its release, with the consumer slow or the release never sent; Stop() returns and the output closes within 1ms virtual, at most the one buffered slice is read afterwards. Real-clock block: the same join signals racing with live traffic. non-trivial = injection landed in a non-idle state (items in flight, output full, producers blocked) or, for join, after at least one delivered slice; distinct by (scenario, position, signal)"
 	r.Assumptions = []string{prioAssume, "Handle of the simplified discipline honours its context (it returns when the context is cancelled)"}
 	r.Floor = 30
 	if r.Cfg.Replay != "" {
@@ -44,12 +44,13 @@ func TestC16(t *testing.T) {
 					return
 				}
 				sc := base
-				sc.Script = append(append([]POp{}, base.Script[:k]...), POp{K: kind, D: int64(rng.IntN(200))})
+				sc.Script = append(append([]POp{}, base.Script[:k]...), POp{K: kind, D: int64(rng.IntN(200)), N: rng.IntN(4)})
 				c := r.prioCase(t, sc)
 				if c.res == nil || !c.res.StopInjected {
 					continue
 				}
 				r.Count("signals_injected."+kind, 1)
+				r.Count("repeated_stop_sequences_after_termination", int64(c.res.RepeatedStops))
 				r.Distinct("injection_states", sc.Ver+"/"+c.res.StopState)
 				r.Count("injection_state."+c.res.StopState, 1)
 				if c.res.StopState != kind+"/idle" {
